@@ -128,7 +128,7 @@ theorem replaceAll_gen (bad : Nat → Bool) (hbad : ∀ d, (d = 85 ∨ isHexU d)
     rw [step, this]
     simp
 
-theorem flatMap_congr' (s : Str) (f g : Nat → Str) (h : ∀ c ∈ s, f c = g c) : s.flatMap f = s.flatMap g := by
+theorem flatMap_congr2 (s : Str) (f g : Nat → Str) (h : ∀ c ∈ s, f c = g c) : s.flatMap f = s.flatMap g := by
   induction s with
   | nil => rfl
   | cons c r ih =>
@@ -148,7 +148,7 @@ theorem replaceAll_eq (bad : Nat → Bool) (hbad : ∀ d, (d = 85 ∨ isHexU d) 
   have := replaceAll_gen bad hbad order [] s hord
   rw [flatMap_gDone_nil] at this
   rw [this]
-  apply flatMap_congr'
+  apply flatMap_congr2
   intro c hc
   unfold gDone
   by_cases hb : bad c = true
